@@ -268,6 +268,31 @@ def shard(a):
                 qs = urllib.parse.urlencode({'number': x})
                 case = {'qs': qs, 'header': 'XMLHttpRequest' if i == 1 else None}
                 check_one(app, qs, case['header'], res, case)
+            # two-stage generation: a cheap pre-filter asks only this module's is_valid() about one suspicious character at
+            # every position of a few numbers (first of the pool, leap-day numbers); the texts on which it does not answer with
+            # a bool are sent to the application, whose response contract alone decides
+            from vf.checks.c12 import DATE_LAYOUT
+            picks = [v]
+            lay = DATE_LAYOUT.get(name)
+            if name == 'se.personnummer':
+                picks += gen.leap_numbers(name, (slice(0, 2), slice(2, 4), slice(4, 6)))[:9]
+            elif lay is not None and lay[0] is not None:
+                picks += gen.leap_numbers(name, (lay[0], lay[2], lay[3]))[:4]
+            sent = 0
+            for w in picks:
+                if len(w) > 40:
+                    continue
+                for i in range(len(w) + 1):
+                    for c in gen.SUSPICIOUS:
+                        for x in ([w[:i] + c + w[i + 1:]] if i < len(w) else []) + ([w[:i] + c + w[i:]] if i % 2 == 0 or i >= len(w) - 1 else []):
+                            res.hist['prefilter:is_valid-calls'] += 1
+                            o = core.out(m.is_valid, x)
+                            if (o[0] != 'ok' or o[1] not in (True, False)) and sent < 6:
+                                sent += 1
+                                res.hist['prefilter:texts-sent-to-the-application'] += 1
+                                qs = urllib.parse.urlencode({'number': x})
+                                for hdr in (None, 'XMLHttpRequest'):
+                                    check_one(app, qs, hdr, res, {'qs': qs, 'header': hdr})
         del _apps[:]
         return res
     if a['kind'] == 'req':
